@@ -4,27 +4,33 @@ from typed_common import *
 # Every option set must give exactly the reference bytes (so any two option sets give identical bytes)
 # and decode the reference bytes to the value (so they decode each other's output).
 OPTS = {
- 'noconstr': (['-fno-constraints'], [], ['T_Seq', 'T_Cho', 'T_SeqOf', 'T_Oct', 'T_IntR']),
- 'quoted': (['-fincludes-quoted'], [], ['T_Seq', 'T_Cho']),
- 'nodeps': (['-fno-include-deps'], [], ['T_Seq', 'T_SeqOf']),
- 'compound': (['-fcompound-names'], [], ['T_Seq', 'T_Cho', 'T_SeqOf']),
- 'wide': (['-fwide-types'], ['-DINT_WIDE'], ['T_Int8', 'T_IntR', 'T_Int16', 'T_IntU32']),
- 'indirect': (['-findirect-choice'], ['-DINDIRECT_CHOICE'], ['T_Cho']),
- 'combo': (['-fcompound-names', '-fno-constraints', '-fincludes-quoted'], [], ['T_Seq', 'T_Cho']),
+ # -fno-constraints together with -gen-PER/-gen-OER makes asn1c emit references to constraint tables it does not
+ # emit (the generated C does not compile: a C10 matter, see DESIGN.md), so it is checked for BER/DER only
+ 'noconstr': (['-fno-constraints'], [], ['T_Seq', 'T_Cho', 'T_SeqOf', 'T_Oct', 'T_IntR'], ('der',)),
+ 'quoted': (['-fincludes-quoted'], [], ['T_Seq', 'T_Cho'], ('der', 'oer', 'uper')),
+ 'nodeps': (['-fno-include-deps'], [], ['T_Seq', 'T_SeqOf'], ('der', 'oer', 'uper')),
+ 'compound': (['-fcompound-names'], [], ['T_Seq', 'T_Cho', 'T_SeqOf', 'T_ChoC'], ('der', 'oer', 'uper')),
+ 'wide': (['-fwide-types'], ['-DINT_WIDE'], ['T_Int', 'T_IntSemi', 'T_IntNeg'], ('der', 'oer')),
+ 'widec': (['-fwide-types'], [], ['T_Int8', 'T_IntR', 'T_Seq'], ('der', 'oer', 'uper')),
+ 'indirect': (['-findirect-choice'], ['-DINDIRECT_CHOICE'], ['T_ChoC'], ('der', 'oer')),
+ 'direct': ([], [], ['T_ChoC'], ('der', 'oer')),
+ 'combo': (['-fcompound-names', '-fno-constraints', '-fincludes-quoted'], [], ['T_Seq', 'T_Cho'], ('der',)),
 }
-Q = {('noconstr', 'T_Seq'), ('wide', 'T_IntR'), ('wide', 'T_Int8'), ('indirect', 'T_Cho'), ('compound', 'T_Cho'), ('combo', 'T_Seq'), ('nodeps', 'T_SeqOf')}
+Q = {('noconstr', 'T_Seq'), ('wide', 'T_Int'), ('widec', 'T_Int8'), ('indirect', 'T_ChoC'), ('direct', 'T_ChoC'), ('compound', 'T_Cho'), ('combo', 'T_Seq'), ('nodeps', 'T_SeqOf')}
 HARNESSES = []
-for on, (opts, defs, types) in OPTS.items():
+for on, (opts, defs, types, ks) in OPTS.items():
     for t in types:
-        for k in ('der', 'oer', 'uper'):
+        for k in ks:
             if (k == 'uper' and t in UPER_TOO_COSTLY) or (k == 'oer' and t in OER_TOO_COSTLY):
                 continue
             for kind, src in (('enc', 'typed/enc_exact.c'), ('dec', 'typed/dec_exact.c')):
-                h = typed(H, 'opt_%s_%s_%s_%s' % (on, kind, t, k), src, t, k, defines=defs,
+                d2 = defs + (['-DCOMPOUND_NAMES'] if on == 'compound' and t == 'T_ChoC' else [])
+                h = typed(H, 'opt_%s_%s_%s_%s' % (on, kind, t, k), src, t, k, defines=d2,
                           tiers=('quick', 'thorough') if (on, t) in Q and k != 'uper' else ('thorough',),
                           functions=['%s %s of %s generated with %s' % (k, 'encoder' if kind == 'enc' else 'decoder', t, ' '.join(opts))],
                           inputs='every value of %s' % t, bounds='option set fixed per query')
-                h.gen = dict(h.gen, opts=h.gen['opts'] + opts)
+                base = [] if 'noconstr' in on or on == 'combo' else h.gen['opts']
+                h.gen = dict(h.gen, opts=base + opts)
                 HARNESSES.append(h)
 # disabling an unused codec
 for t in ('T_Seq', 'T_Cho'):
